@@ -33,11 +33,24 @@ pub struct Trace {
     /// a WOFF2 file with null transforms and served by the real `Woff2TableProvider`.
     #[serde(default)]
     pub wrap_woff2: bool,
+    /// With `wrap_woff2`: use the transform-capable encoder (sim/src/woff2_build.rs) with these
+    /// options instead of null transforms.
+    #[serde(default, skip_serializing_if = "Option::is_none")]
+    pub wrap_opts: Option<WrapOpts>,
     #[serde(default)]
     pub surgery: Vec<Surgery>,
     #[serde(default)]
     pub faults: Vec<Fault>,
     pub ops: Vec<Op>,
+}
+
+#[derive(Serialize, Deserialize, Clone, Debug)]
+pub struct WrapOpts {
+    pub transform_glyf: bool,
+    pub transform_hmtx: bool,
+    pub variant: u64,
+    /// `woff2_build::AVOID_*` bit set
+    pub avoid: u32,
 }
 
 /// Valid-by-construction edits of the disk model that give the corpus structures it lacks.
